@@ -69,8 +69,11 @@ PROPS.update({
         "level_text": "Partial, proof of the NAK *content*: has_naks() <=> metadata missing or some byte of [0,EOF size) not held (a missing first segment "
                       "included) or, before EOF, a hole between runs; get_all_naks() = the (0,0) marker exactly when metadata is missing followed by exactly "
                       "the maximal uncovered sub-ranges of [0,n): every request non-empty, inside the file, sorted, disjoint, their union = the missing bytes. "
-                      "NOT decided: PDU assembly in send_naks (scope, split by capacity, size limit), the delayed-NAK queueing in handle_timeout and the "
-                      "deferred/immediate timing rules in process_pdu (iterator chains / Permit plumbing outside Verus' subset).",
+                      "send_naks builds a NAK PDU with at most max_nak_num requests (so that it fits the configured segment size: proved from the real "
+                      "max_nak_num), scope = first request's start .. last request's end, and is never entered while suspended; process_pdu: after an "
+                      "EOF (no error) with something missing, the queue holds exactly the missing ranges, or - with a delay - a whole-file check is armed. "
+                      "NOT decided: the delayed-NAK prologue of handle_timeout (stub), 'no unsolicited NAK before EOF under the deferred procedure' "
+                      "(would need a history invariant over process_pdu calls), configuration assumption segment size >= 2 x FSS.",
         "level_note": VERUS_NOTE,
     },
     "C14": {
@@ -120,7 +123,10 @@ PROPS.update({
                       "(Cancel by default; Ignore continues untouched; Suspend freezes; Abandon terminates with nothing queued). Sender handle_timeout "
                       "declares a limit fault only with the count at its limit and arms an EOF retransmission only on an expired ACK timer. "
                       "Receiver handle_timeout likewise (its delayed-NAK prologue abstracted by a stub). "
-                      "NOT decided: the places where progress resets the count (process_pdu, send_naks), the delayed-NAK prologue, real time between calls.",
+                      "process_pdu of both transactions clears the inactivity count on every PDU from the peer (sender: while waiting after EOF) and an "
+                      "ACK(EOF) stops the sender's ACK timer; send_naks declares NakLimitReached only with the NAK count at its limit and no new data since "
+                      "the previous NAK, and clears the count when new data arrived. "
+                      "NOT decided: the delayed-NAK prologue (stub), the sender's NAK splitter (stub), real time between calls.",
         "level_note": VERUS_NOTE + "Time model assumed: Instant/Duration as integer nanoseconds, Instant + Duration mathematical (std panics only after ~584 years), "
                       "duration_since saturating, Instant::now() arbitrary. Configuration assumptions never checked by the code: timeout > 0 (else update loops forever), "
                       "limit < u32::MAX.",
